@@ -244,9 +244,13 @@ def emptiness_guard_facts(ctx, body, site_bi, facts):
 def structural_len_facts(atoms, facts):
     """std lemmas on atoms that occur:  len(x[a..b]) = b - a, len(x[..b]) = b (checked indexing returned);
     count(adaptors(iter(x))) <= len(x) and <= n for take(n);  capacity(v) >= len(v)"""
-    for a in list(atoms):
-        if not isinstance(a, tuple) or not a:
+    work = list(atoms)
+    seen = set()
+    while work:
+        a = work.pop()
+        if not isinstance(a, tuple) or not a or a in seen:
             continue
+        seen.add(a)
         if a[0] == "len":
             x = a[1]
             if isinstance(x, tuple) and x and x[0] == "call" and x[1].endswith("Index::index") and len(x[2]) == 2:
@@ -261,11 +265,18 @@ def structural_len_facts(atoms, facts):
                         f = lin(d["end"]) - lin(d["start"]) - Lin({a: 1})
                         facts.append(Fact(f, "len(x[a..b]) = b - a"))
                         facts.append(Fact(Lin() - f, "len(x[a..b]) = b - a"))
+                    elif rng[2].endswith("RangeFrom::RangeFrom") and "start" in d:
+                        inner = ("len", norm_atom(x[2][0]))
+                        f = Lin({inner: 1}) - lin(d["start"]) - Lin({a: 1})
+                        facts.append(Fact(f, "len(x[a..]) = len(x) - a"))
+                        facts.append(Fact(Lin() - f, "len(x[a..]) = len(x) - a"))
+                        work.append(inner)
         if a[0] == "call" and a[1].endswith("Iterator::count") and a[2]:
             src, stages = U.chain(a[2][0])
             names = [s_[0] for s_ in stages]
             if names and names[0] in ("iter", "into_iter") and all(n in ("iter", "into_iter", "take_while", "take", "rev", "filter", "skip_while", "skip", "map") for n in names):
                 facts.append(Fact(Lin({("len", norm_atom(src)): 1, a: -1}), "count(..iter(x)..) <= len(x)"))
+                work.append(("len", norm_atom(src)))
                 for s_ in stages:
                     if s_[0] == "take" and s_[1]:
                         facts.append(Fact(lin(s_[1][0]) - Lin({a: 1}), "count(..take(n)..) <= n"))
